@@ -44,7 +44,7 @@ class C05(Check):
                    'with several driver tasks the final cache entry must equal the effect of an operation that no '
                    'other completed operation on that parameter strictly follows (event sequence numbers)']
     PROBES = ('c05.recovery-same-value', 'c05.suppressed-unchanged', 'c05.repeated-error', 'c05.invalid-read',
-              'c05.concurrent-same-param', 'c05.late-activation', 'fault.parameter-callback-raised')
+              'c05.concurrent-same-param', 'c05.late-activation', 'fault.parameter-callback-raised', 'c05.device-timestamp')
 
     def gen_case(self, rng, tier):
         specs = []
@@ -81,6 +81,8 @@ class C05(Check):
                     op['ret'] = rng.choice(['same', 'none', 'other'])
                     if op['ret'] == 'other':
                         op['v2'] = dtgen.valid_wire(rng, p['di'])
+                if kind == 'assign' and rng.random() < 0.3:
+                    op['ts'] = 'device'
                 if kind == 'assign_invalid':
                     op['v'] = rng.choice([None, 'zz\0'])
                 ops.append(op)
@@ -192,6 +194,10 @@ class C05(Check):
                             pc['ret'] = dtgen.to_internal(di, op['v2'])
                         v = dtgen.to_internal(di, op['v'])
                     getattr(mobj, 'write_' + pname)(v)
+                elif kind == 'assign' and op.get('ts'):
+                    # a value stamped by the device (clock with a resolution of 1 s): several changes carry one timestamp
+                    sim.count('c05.device-timestamp')
+                    mobj.announceUpdate(pname, dtgen.to_internal(di, op['v']), timestamp=float(int(time.time())))
                 elif kind == 'assign':
                     setattr(mobj, pname, dtgen.to_internal(di, op['v']))
                 elif kind == 'assign_same':
@@ -237,7 +243,7 @@ class C05(Check):
             c2 = late['client'] = nodeworld.RawClient(world)
             r2 = c2.request('activate', timeout=60)
             late['activated'] = r2 is not None and r2[2].raw == b'active'
-            sim.count('c05.late-activation', 'fault.parameter-callback-raised')
+            sim.count('c05.late-activation', 'fault.parameter-callback-raised', 'c05.device-timestamp')
         lt = None
         if shape.get('late_activate') is not None:
             lt = threading.Thread(target=late_client, name='late-client')
@@ -430,8 +436,12 @@ class C05(Check):
 
     @staticmethod
     def _replay(ctx, states, cl, tag, cnt):
+        """map every update line to an index of the cache history of its parameter.  A state may have been held
+        several times (equal values stamped by a coarse device clock): the assignment with the fewest skipped states
+        among the non-decreasing ones is taken, so an ambiguous line never raises an alarm"""
         res = []
         last = {}
+        perkey = {}
         for (_seq, _t, ln) in cl.lines:
             if ln.action not in ('update', 'error_update'):
                 continue
@@ -440,28 +450,62 @@ class C05(Check):
                 continue
             key = tuple(ln.spec.split(':', 1))
             st = nodeworld.msg_state(ln)
-            idx = None
-            for i, (_s, s) in enumerate(states.get(key, ())):
-                if s[0] == st[0] and s[1] == st[1] and s[-1] == st[-1]:
-                    idx = i
-                    if key not in last or i > last[key][0]:
-                        break       # (the same state may be held several times: the first one not yet delivered)
-            if idx is None:
+            cands = [i for i, (_s, s) in enumerate(states.get(key, ()))
+                     if s[0] == st[0] and s[1] == st[1] and s[-1] == st[-1]]
+            if not cands:
                 res.append(Violation('C05.phantom-state', 'update' + tag,
                                      f'{ln!r} shows a state the cache never held; history of {key}: '
                                      f'{[s for _q, s in states.get(key, [])][-5:]}'))
                 continue
-            if key in last and idx < last[key][0]:
-                res.append(Violation('C05.stream-order', 'reordered' + tag,
-                                     f'line {ln.idx} {ln!r} shows cache state #{idx} after line {last[key][1]} showed '
-                                     f'the newer state #{last[key][0]}'))
-            # an activated connection gets one message per announced change: no state of the cache is skipped
-            if key in last and idx > last[key][0] + 1 and not cl.eof:
-                res.append(Violation('C05.change-not-announced', 'skipped' + tag,
-                                     f'line {ln.idx} {ln!r} shows cache state #{idx} of {key}, the previous message for it '
-                                     f'showed #{last[key][0]}: {[s for _q, s in states[key][last[key][0] + 1:idx]][:3]} never '
-                                     f'reached this connection'))
-            last[key] = (idx, ln.idx)
+            perkey.setdefault(key, []).append((ln, cands, _seq))
+        for key, msgs in perkey.items():
+            hist = states[key]
+            # dp over the lines of this parameter: cost = number of lines which skip a state
+            INF = 10 ** 9
+            # the first line (the snapshot of the activation): the latest matching state held before the line arrived
+            ln0, c0, seq0 = msgs[0]
+            held = [i for i in c0 if hist[i][0] <= seq0]
+            first = [max(held)] if held else [c0[0]]
+            table = [{i: (0, None) for i in first}]
+            for ln, cands, _q in msgs[1:]:
+                prev = table[-1]
+                cur = {}
+                for i in cands:
+                    best = None
+                    for j, (cj, _b) in prev.items():
+                        if j <= i and cj < INF:
+                            c = cj + (1 if i > j + 1 else 0)
+                            if best is None or c < best[0] or (c == best[0] and j > best[1]):
+                                best = (c, j)
+                    if best is not None:
+                        cur[i] = best
+                if not cur:
+                    # no non-decreasing assignment: the stream goes back in the history
+                    j = max(prev, key=lambda k: (-prev[k][0], k))
+                    res.append(Violation('C05.stream-order', 'reordered' + tag,
+                                         f'line {ln.idx} {ln!r} shows cache state #{cands[-1]} after an earlier line showed '
+                                         f'the newer state #{j}'))
+                    cur = {i: (0, None) for i in cands[-1:]}
+                table.append(cur)
+            # backtrack the cheapest assignment
+            idxs = []
+            i = min(table[-1], key=lambda k: (table[-1][k][0], k))
+            for lvl in range(len(table) - 1, -1, -1):
+                idxs.append(i)
+                back = table[lvl][i][1]
+                if back is None and lvl > 0:
+                    back = max(table[lvl - 1], key=lambda k: (-table[lvl - 1][k][0], k))
+                i = back
+            idxs.reverse()
+            for n, ((ln, _c, _q), idx) in enumerate(zip(msgs, idxs)):
+                if n and idx > idxs[n - 1] + 1 and not cl.eof:
+                    # an activated connection gets one message per announced change: no state of the cache is skipped
+                    res.append(Violation('C05.change-not-announced', 'skipped' + tag,
+                                         f'line {ln.idx} {ln!r} shows cache state #{idx} of {key}, the previous message for it '
+                                         f'showed #{idxs[n - 1]}: {[s for _q2, s in hist[idxs[n - 1] + 1:idx]][:3]} never '
+                                         f'reached this connection'))
+                    break
+            last[key] = (idxs[-1], msgs[-1][0].idx)
         final = ctx['final']
         if cl.eof:
             # the node dropped the (slow) consumer: nothing to compare at quiescence
